@@ -204,7 +204,19 @@ fn norms(case: &mut Case) -> Result<(), String> {
     let a: Vec<f64> = (0..n).map(|_| gen_wide(&mut case.src, lo, hi)).collect();
     let b: Vec<f64> = (0..n).map(|_| gen_wide(&mut case.src, lo, hi)).collect();
     let s = gen_wide(&mut case.src, -3.0, 3.0);
-    let p = if case.src.coin() { case.src.urange(1, 8) as f64 } else { case.src.f64_in(1.0, 8.0) };
+    // p: integers, continuous, and values just beside 1 and 2 (a "fast path" for p ~ 1 or p ~ 2 must not be tolerant)
+    let p = match case.src.below(4) {
+        0 => case.src.urange(1, 8) as f64,
+        1 => {
+            let d = 10f64.powf(case.src.f64_in(-12.0, -5.0));
+            match case.src.below(3) {
+                0 => 1.0 + d,
+                1 => 2.0 + d,
+                _ => 2.0 - d,
+            }
+        }
+        _ => case.src.f64_in(1.0, 8.0),
+    };
     let (va, vb) = (Vector::create(a.clone()), Vector::create(b.clone()));
     case.class(format!("norms {}", if wide { "1e+-100" } else { "1e+-30" }));
     case.describe(|| format!("norms a={:?} b={:?} s={:e} p={}", a, b, s, p));
@@ -266,6 +278,38 @@ fn norms(case: &mut Case) -> Result<(), String> {
             return Err(format!("inf <= p <= 1 chain violated for p = {}", p));
         }
     }
+    Ok(())
+}
+
+/// the infinity- and 1-norm need no squares: they must be right over the whole finite range
+fn extreme_norms(case: &mut Case) -> Result<(), String> {
+    let n = 1 + case.src.usize_below(16);
+    let side = case.src.below(3); // 0: all tiny, 1: all huge, 2: mixed
+    let a: Vec<f64> = (0..n)
+        .map(|_| match (side, case.src.below(6)) {
+            (_, 0) => 0.0,
+            (0, _) => gen::f64_log(&mut case.src, -300.0, -150.0),
+            (1, _) => gen::f64_log(&mut case.src, 150.0, 300.0),
+            _ => gen::f64_log(&mut case.src, -300.0, 300.0),
+        })
+        .collect();
+    let va = Vector::create(a.clone());
+    case.class(format!("extreme-magnitude norms {}", ["tiny", "huge", "mixed"][side as usize]));
+    case.mark_nontrivial();
+    case.describe(|| format!("extreme norms a={:?}", a));
+    let ninf = a.iter().map(|x| x.abs()).fold(0.0, f64::max);
+    if va.norm_inf() != ninf {
+        return Err(format!("norm_inf = {:e}, largest absolute value {:e}", va.norm_inf(), ninf));
+    }
+    let n1: f64 = a.iter().map(|x| x.abs()).sum();
+    if n1.is_finite() && !((va.norm_1() - n1).abs() <= 4.0 * EPS * (n as f64 + 4.0) * n1) {
+        return Err(format!("norm_1 = {:e}, expected {:e}", va.norm_1(), n1));
+    }
+    if !(va.norm_inf() <= va.norm_1() * (1.0 + 1e-12)) {
+        return Err("norm_inf > norm_1".into());
+    }
+    let w: Vector<Cmplx> = Vector::create(a.iter().map(|x| Cmplx::new(*x, 0.0)).collect());
+    let _ = w;
     Ok(())
 }
 
@@ -472,7 +516,7 @@ impl Prop for C15 {
     fn rule(&self) -> String {
         "case families: (0-2) arithmetic over {rationals, small-integer f64, Gaussian-integer Complex<f64>}, length 0..=64: every element-wise operator in borrowed/owned form, scalar ops, all compound assignments, dot, constructors, \
          sum_slice/product_slice for every (start,end) when n <= 12 and random ranges beyond, sum/product, abs, norm_1, against a Vec model, exactly; (3) Vector<Complex<Rat>> conj/real and Complex<f64> norm_inf; \
-         (4) f64 norms with |x| in {0} U [1e-100,1e100] (p-norm: [1e-30,1e30], p in [1,8]) against double-double, and the norm laws (non-negativity, homogeneity, triangle inequality, inf <= 2 <= 1 and inf <= p <= 1) with a few-ulp slack, f64*Vector; \
+         (4) f64 norms with |x| in {0} U [1e-100,1e100] (p-norm: [1e-30,1e30], p in [1,8]) against double-double, and the norm laws (non-negativity, homogeneity, triangle inequality, inf <= 2 <= 1 and inf <= p <= 1) with a few-ulp slack, f64*Vector; p is an integer, continuous in [1,8], or 1+d / 2+-d with d = 1e-12..1e-5; (4b) norm_inf and norm_1 over the whole finite range (|x| in 1e-300..1e300, all tiny / all huge / mixed); \
          (5) histories of <= 40 edits (push, push_front, insert, pop, swap, resize, assign, clear, sort, sort_by, find, index write, clone) against a Vec model compared after every step; (6) linspace/powspace with 2..=64 points: \
          first element exactly a, last within 8 eps*max(|a|,|b|) of b, weakly monotone, elements within rounding of the defining formula; random(n) in [0,1). sum/product/norm_inf/find on the empty vector are not asserted. \
          Non-trivial: history of >= 6 steps with a size-changing step before an index-dependent one; reductions over a strict sub-range of a vector of length >= 3; every sequence case. distinct = distinct decoded choice sequence."
@@ -488,14 +532,15 @@ impl Prop for C15 {
         tier.pick(400_000, 6_000_000)
     }
     fn run(&self, case: &mut Case) -> Outcome {
-        let r = match case.src.below(9) {
+        let r = match case.src.below(10) {
             0 => arithmetic::<Rat>(case),
             1 => arithmetic::<f64>(case),
             2 => arithmetic::<Cmplx>(case),
             3 => complex_parts(case),
             4 | 5 => norms(case),
             6 | 7 => history(case),
-            _ => sequences(case),
+            8 => sequences(case),
+            _ => extreme_norms(case),
         };
         match r {
             Ok(()) => Outcome::Pass,
